@@ -1539,7 +1539,7 @@ func TestVerifC01(t *testing.T) {
 	defer kit.UninstallVClock()
 
 	// (a) random sequential histories, 10 per case
-	kit.Run(t, "C01", "random", kit.N(1200, 25000), func(c *kit.Case) {
+	kit.Run(t, "C01", "random", kit.N(1200, 20000), func(c *kit.Case) {
 		for i := 0; i < 10 && !c.Violated(); i++ {
 			runRandomHistory(c, vc)
 			c.Evals(1)
@@ -1583,7 +1583,7 @@ func TestVerifC01(t *testing.T) {
 	kit.Run(t, "C01", "effectiveness", kit.N(48, 600), func(c *kit.Case) { runEffectiveness(c, vc) })
 
 	// (c)+(d) concurrent histories, registry races
-	kit.Run(t, "C01", "concurrent", kit.N(800, 12000), func(c *kit.Case) { runConcurrent(c, vc) })
+	kit.Run(t, "C01", "concurrent", kit.N(800, 8000), func(c *kit.Case) { runConcurrent(c, vc) })
 
 	// (d) integration site: rest/handler.BreakerHandler
 	kit.Run(t, "C01", "handler", kit.N(120, 2000), func(c *kit.Case) { runHandler(c, vc) })
